@@ -5,6 +5,8 @@ import Abmarl.Lemmas.ReachMoves
 import Abmarl.Lemmas.ReachAttacks
 import Abmarl.Lemmas.ReachObs
 import Abmarl.Lemmas.ReachNoRaise
+import Abmarl.Lemmas.ReachHeal
+import Abmarl.Lemmas.ReachHist
 /-!
 # `ReachTheTargetSim`: what holds of the theorem set of the packaged examples, and what does not
 
@@ -595,6 +597,98 @@ example : ∃ s'', RT.step exRTCfg { exRTState with tape := [] } exRTActs = .ok 
       · exact ⟨by decide, by decide, by decide +kernel, fun _ h => by cases h⟩
       · exact ⟨by decide, by decide, by decide +kernel, fun _ h => by cases h⟩
       · exact ⟨by decide, by decide, by decide +kernel, fun _ _ => by decide +kernel⟩) []
+
+/-! ## C02: a step with in-space actions does not raise — in EVERY reachable state (`WInvWeak` only) -/
+
+/-- every state reached by any history is `RT.GoodH`: `WInvWeak`, constructed static part, a reward entry for every
+learning agent, every stored position a grid cell -/
+theorem RT.reachable_goodH (cfg : RT.Cfg) (w0 : World) (hcfg : CfgOK w0) (hfresh : w0.vitalsAlive = true)
+    (t0 : Tape) (ops : List Ex.EOp) (hops : ∀ op ∈ ops, RT.OpOK cfg w0 op) :
+    RT.GoodH cfg w0 (RT.runOps cfg { w := w0, tape := t0 } ops).2 :=
+  RT.runOps_goodH hcfg hfresh ops _ hops (RT.goodH_init cfg w0 t0)
+
+/-- **`stepMustNotRaise ⇒ returns`, with no hypothesis at all**: for EVERY world `w` (reachable or not), reward dict `r`,
+action dict and tape — if the judge's Boolean `RT.stepMustNotRaise cfg w r acts` is true (the world satisfies `WInvWeak`;
+every item is a point of the declared action space of a learning agent of the simulation, alive or not; every learning agent
+has a reward entry) then `ReachTheTargetSim.step` RETURNS.  No `WInv`: the world may hold any number of runners that were
+taken off the grid by hand (inactive with positive health).  The missing lemma of DESIGN.md 11.2 — `process_action` of
+every attack actor returns for an in-space action in a `WInvWeak` world — is `RT.processAttack_ok_weak`
+(Lemmas/ReachHeal.lean: `attackOK_all` transported through `RT.heal`; the attack code reads the health of ACTIVE candidates
+only, `RT.processAttack_heal`). -/
+theorem reach_stepMustNotRaise_returns (cfg : RT.Cfg) (w : World) (r : Ex.Ledger) (acts : List (Aid × Ex.Act)) (t : Tape)
+    (h : RT.stepMustNotRaise cfg w r acts = true) :
+    ∃ s', RT.step cfg { w := w, rewards := some r, tape := t } acts = .ok s' := by
+  obtain ⟨hP, hS⟩ := RT.items_of_stepMustNotRaise h
+  obtain ⟨p, hp, _⟩ := RT.stepPS_ok_weak (cfg := cfg) (w0 := w) ⟨w, r, t⟩ acts ⟨hP.weak, hP.frame, hP.full⟩ hS
+  exact ⟨{ w := p.w, rewards := some p.r, tape := p.t }, by simp only [RT.step, hp]⟩
+
+/-- … in the form the judge uses it: a `step` of the model that raises was made outside `stepMustNotRaise` -/
+theorem reach_step_error_outside (cfg : RT.Cfg) (w : World) (r : Ex.Ledger) (acts : List (Aid × Ex.Act)) (t : Tape)
+    (e : GErr) (h : RT.step cfg { w := w, rewards := some r, tape := t } acts = .error e) :
+    RT.stepMustNotRaise cfg w r acts = false := by
+  cases hm : RT.stepMustNotRaise cfg w r acts with
+  | false => rfl
+  | true =>
+    obtain ⟨s', hs'⟩ := reach_stepMustNotRaise_returns cfg w r acts t hm
+    rw [hs'] at h; cases h
+
+/-- **a `step` with in-space actions does not raise in ANY reachable state** (C02: "every action drawn from an agent's
+declared action space is accepted and processed without error"): from the constructed world, after ANY history of resets,
+steps (ANY action dicts), observations, reward reads and done queries (once a reset has returned) — in particular after
+runners reached the target and were deactivated by hand, so that the world satisfies `WInvWeak` only —, a `step` whose
+items are points of the declared action spaces of learning agents of the simulation (`Ex.ItemOK`: alive or dead, any
+subset, any order) returns, for every tape.  `reach_step_noRaise_WInv` / `reach_first_step_noRaise` are the special cases
+of a `WInv` world. -/
+theorem reach_step_noRaise (cfg : RT.Cfg) (w0 : World) (hcfg : CfgOK w0) (hfresh : w0.vitalsAlive = true)
+    (t0 : Tape) (ops : List Ex.EOp) (hops : ∀ op ∈ ops, RT.OpOK cfg w0 op)
+    (acts : List (Aid × Ex.Act)) (hS : ∀ x ∈ acts, Ex.ItemOK cfg.toEx w0 x) (t : Tape) :
+    let s := (RT.runOps cfg { w := w0, tape := t0 } ops).2
+    s.rewards.isSome = true → ∃ s', RT.step cfg { s with tape := t } acts = .ok s' := by
+  intro s hs
+  have hG : RT.GoodH cfg w0 s := RT.reachable_goodH cfg w0 hcfg hfresh t0 ops hops
+  unfold RT.GoodH at hG
+  cases hr : s.rewards with
+  | none => rw [hr] at hs; cases hs
+  | some r =>
+    rw [hr] at hG
+    obtain ⟨hW, hF, hL, _⟩ := hG
+    obtain ⟨p, hp, _⟩ := RT.stepPS_ok_weak (cfg := cfg) (w0 := w0) ⟨s.w, r, t⟩ acts ⟨hW, hF, hL⟩ hS
+    exact ⟨{ w := p.w, rewards := some p.r, tape := p.t }, by simp only [RT.step, hp]⟩
+
+/-- the state of the examples above after runner 1 reached the target and was taken off the grid by hand: `WInvWeak`,
+not `WInv` -/
+def exRTState2 : Ex.St := (RT.runOps exRTCfg { w := exRTWorld2 } exRTOps).2
+
+/-- the hypotheses of `reach_stepMustNotRaise_returns` are inhabited by a world that violates `WInv`: in `exRTState2` the
+whole action dict `exRTActs` (an item for the deactivated runner too, the target attacking its own cell) must not raise -/
+example : exRTState2.w.WInv = false ∧ exRTState2.rewards = some [(0, -1), (1, 99), (2, -10)] ∧
+    RT.stepMustNotRaise exRTCfg exRTState2.w [(0, -1), (1, 99), (2, -10)] exRTActs = true := by
+  decide +kernel
+
+example : ∃ s', RT.step exRTCfg { w := exRTState2.w, rewards := some [(0, -1), (1, 99), (2, -10)], tape := [] } exRTActs = .ok s' :=
+  reach_stepMustNotRaise_returns _ _ _ _ _ (by decide +kernel)
+
+/-- `reach_step_noRaise` on the same history: the second step of the episode, from a world that is only `WInvWeak` -/
+example : ∃ s', RT.step exRTCfg { exRTState2 with tape := [] } exRTActs = .ok s' :=
+  reach_step_noRaise exRTCfg exRTWorld2 ((cfgOKb_iff _).mp (by decide +kernel)) (by decide +kernel) [] exRTOps
+    (fun op hop => by
+      simp only [exRTOps, List.mem_cons, List.mem_nil_iff, or_false] at hop
+      rcases hop with rfl | rfl
+      · exact Ex.resetOK_of_b (by decide +kernel)
+      · trivial)
+    exRTActs (fun x hx => by
+      simp only [exRTActs, List.mem_cons, List.mem_nil_iff, or_false] at hx
+      rcases hx with rfl | rfl | rfl
+      · exact ⟨by decide, by decide, by decide +kernel, fun _ h => by cases h⟩
+      · exact ⟨by decide, by decide, by decide +kernel, fun _ h => by cases h⟩
+      · exact ⟨by decide, by decide, by decide +kernel, fun _ _ => by decide +kernel⟩) [] (by decide +kernel)
+
+/-- … and what that second step does: the target's attack finds nobody (−0.1), runner 0 stays, the deactivated runner 1 is
+skipped by all loops but the entropy loop -/
+example : (match RT.step exRTCfg { exRTState2 with tape := [] } exRTActs with
+    | .ok s' => s'.rewards == some [(0, -2), (1, 98), (2, -20)] && s'.w.WInvWeak && !s'.w.WInv
+    | .error _ => false) = true := by
+  decide +kernel
 
 /-- the manager theorems are inhabited: a turn-based run over `exRTWorld2` -/
 example : specC01 .turnBased 3 exRTCfg.isLearning false
